@@ -73,4 +73,30 @@ theorem ex_good (c : Cfg) : Good (SmallColl c) exTree :=
 theorem ex_floats : FloatsIn (fun _ => False) exTree := by
   refine ⟨⟨?_, ?_⟩, ⟨⟨⟨trivial, ?_⟩, ⟨trivial, ?_⟩⟩, trivial⟩⟩ <;> (intro h; exact absurd h (by decide))
 
+/-! a loop-free instance for the stage A statements: `I == 1 and (B ? "x" : [I, 2][0])` -/
+
+def exTreeA : Node :=
+  .binary m0 "and" (.binary m0 "==" (.ident m0 "I" false) (.int m0 1))
+    (.cond m0 (.ident m0 "B" false) (.str m0 "x")
+      (.index m0 (.array m0 [.ident m0 "I" false, .int m0 2]) (.int m0 0)))
+
+def exCompiledA : Compiled :=
+  match compileProgram {} exTreeA with
+  | .ok cp => cp
+  | .error _ => default
+
+set_option maxRecDepth 4000 in
+theorem exA_compiles : compileProgram {} exTreeA = .ok exCompiledA := by
+  unfold exCompiledA
+  rfl
+
+set_option maxRecDepth 4000 in
+theorem exA_fits : FitsU16 exCompiledA.code := by decide
+
+theorem exA_good : Good (fun _ => False) exTreeA :=
+  ⟨⟨trivial, trivial⟩, trivial, trivial, ⟨⟨trivial, trivial, trivial⟩, trivial⟩⟩
+
+theorem exA_floats : FloatsIn (fun _ => False) exTreeA := by
+  refine ⟨⟨trivial, ?_⟩, trivial, trivial, ⟨⟨trivial, ?_, trivial⟩, ?_⟩⟩ <;> (intro h; exact absurd h (by decide))
+
 end ExprModel.C01
